@@ -154,7 +154,8 @@ class Shim:
         function of its JSON) a HISTORY of one to three other fields is installed first, each of a kind drawn from:
         'near' (the final field perturbed by 1e-5..3e-3 cells), 'far' (unrelated), 'same' (bit-identical to the final
         field), 'outside' (some rows pushed beyond the mesh: +-n, +-inf, NaN; the other rows as in the final field),
-        'block0' (only the first n entries: a one-block field as used for kicks shared by all bunches), 'empty' (the idiom
+        'samehead' (first bunch's block as in the final field, the other blocks unrelated), 'block0' (only the first n
+        entries: a one-block field as used for kicks shared by all bunches), 'empty' (the idiom
         'swap the field out, edit it, swap it back').  A map must depend on the current field only; source-map entries
         that are cached, thresholded, only partly rewritten or guarded by sticky state show up this way in every check
         that uses kick maps (seeds C05d, C08d, C15d, C01e, C08e)."""
@@ -168,7 +169,7 @@ class Shim:
                 amp = float(np.abs(fin).max()) if len(fin) else 1.0
                 n1 = max(1, len(off) // max(1, int(self.lib.iv_nb())))
                 for _ in range(int(r.integers(1, 4))):
-                    kind = ("near", "far", "same", "outside", "block0", "empty")[int(r.integers(0, 6))]
+                    kind = ("near", "far", "same", "outside", "block0", "empty", "samehead")[int(r.integers(0, 7))]
                     if kind == "near":
                         pre = off + (r.uniform(-1, 1, len(off)) * 10 ** r.uniform(-5, -2.5)).astype(np.float32)
                     elif kind == "far":
@@ -180,6 +181,12 @@ class Shim:
                         rows = r.random(len(off)) < 0.3
                         vals = np.array([2.0 * n1, -2.0 * n1, np.inf, -np.inf, np.nan, 0.75 * n1, -0.75 * n1], np.float32)
                         pre[rows] = vals[r.integers(0, len(vals), int(rows.sum()))]
+                    elif kind == "samehead":
+                        # first bunch's block bit-identical to the final field, the later blocks different (a change test
+                        # that looks at the first block only - round-8 seed C02h - keeps the old table for the others)
+                        pre = off.copy()
+                        if len(off) > n1:
+                            pre[n1:] = (r.uniform(-1, 1, len(off) - n1) * (amp + 0.5)).astype(np.float32)
                     elif kind == "block0":
                         pre = off[:n1].copy()
                     else:
